@@ -17,6 +17,9 @@ CONSTANTS
     VerifyBeforeCache = TRUE
     RecheckCachedLayer = TRUE
     PassVerifies = TRUE
+    TocLabelFirst = TRUE
+    WithMount = FALSE
+    FsCfgs = {"--"}
 SPECIFICATION TraceSpec
 CONSTRAINT HighWater
 INVARIANTS MountImpliesToc ServedAreGood NoBadStaysCached FailedReadLeavesNothing
